@@ -9,6 +9,10 @@ open HC HC.Middleware
 
 /-! ### ProxyFix: the trust boundary -/
 
+/-- the extracted comparator is `≥` (re-checked against the source on every run) -/
+theorem enough_cmp (a b : Nat) : Extracted.Guards.proxyEnoughCmp.eval a b = decide (a ≥ b) := by
+  simp [Extracted.Guards.proxyEnoughCmp, Extracted.Guards.Cmp.eval]
+
 theorem values_append (name : Bytes) (pre hs : Headers) :
     values name (pre ++ hs) = values name pre ++ values name hs := by
   simp [values]
@@ -31,6 +35,7 @@ theorem trusted_value_ignores_prefix (name : Bytes) (pre hs : Headers) (hops : N
     (h : hops ≤ (values name hs).length) :
     getTrusted name (pre ++ hs) hops = getTrusted name hs hops := by
   unfold getTrusted
+  simp only [enough_cmp, decide_eq_true_eq]
   by_cases h0 : hops = 0
   · simp [h0]
   · simp only [h0, if_false, values_append]
@@ -41,6 +46,7 @@ theorem trusted_value_ignores_inline_prefix (name n a v : Bytes) (hs : Headers) 
     (hn : Bytes.lower n = name) (h : hops ≤ (values name ((n, v) :: hs)).length) :
     getTrusted name ((n, a ++ 44 :: v) :: hs) hops = getTrusted name ((n, v) :: hs) hops := by
   unfold getTrusted
+  simp only [enough_cmp, decide_eq_true_eq]
   by_cases h0 : hops = 0
   · simp [h0]
   · simp only [h0, if_false]
@@ -69,6 +75,7 @@ theorem trusted_ignores_prefix (modern : Bool) (hops : Nat) (pre hs : Headers) (
       -- enough values and none ⇒ hops = 0 ⇒ every lookup is none
       have h0 : hops = 0 := by
         unfold getTrusted at hg
+        simp only [enough_cmp, decide_eq_true_eq] at hg
         by_cases h0 : hops = 0
         · exact h0
         · simp only [h0, if_false, ge_iff_le, h, if_true] at hg
@@ -112,6 +119,7 @@ theorem too_few_untouched (modern : Bool) (hops : Nat) (sc : Scope)
   have g : ∀ name, (values name sc.headers).length < hops → getTrusted name sc.headers hops = none := by
     intro name hlt
     unfold getTrusted
+    simp only [enough_cmp, decide_eq_true_eq]
     split
     · rfl
     · simp only [ge_iff_le]; split
